@@ -635,6 +635,8 @@ class Engine:
         h = self.models.const_model(self, s)
         if h is not NotImplemented:
             return h
+        if self.models.lookup(self, s, bare) is not None:
+            return FnItem(s)          # a library function used as a value (e.g. `TokenStream::new` passed as a closure)
         raise Unsupported('const ' + s)
 
     def eval_const(self, name):
